@@ -23,7 +23,7 @@ typedef struct { char name[64]; uint8_t* data; size_t len; } SAMPLE;
 typedef struct { char name[64]; YR_RULES* rules; int nrules; } RULESET;
 static SAMPLE samples[256];
 static int nsamples;
-static RULESET rulesets[32];
+static RULESET rulesets[256];
 static int nrulesets;
 
 typedef struct { char** lines; int n; } CASE;
@@ -199,7 +199,7 @@ int main(int argc, char** argv)
     if (!in_case && !strncmp(line, "ruleset ", 8))
     {
       char* sp = strchr(line + 8, ' ');
-      if (sp && nrulesets < 32)
+      if (sp && nrulesets < 256)
       {
         *sp = 0;
         RULESET* r = &rulesets[nrulesets++];
